@@ -727,6 +727,9 @@ def make_table(rng, d, n, kinds=None, labels='str', regular=False):
         elif k == 'tiny':       # tiny absolute scale: NOT a constant column
             src = prev[int(rng.integers(len(prev)))] if prev else rng.normal(0, 1, n)
             c = 2e-9 * ((src - float(np.mean(src))) / (float(np.std(src)) + 1e-12) + 0.5 * rng.normal(0, 1, n))
+        elif k == 'outlier':    # a regular column with ONE gross outlier (beyond 5.2 sigma of any location-scale fit): the clip at EPSILON acts
+            c = rng.normal(float(rng.uniform(-3, 3)), float(rng.uniform(0.5, 3)), n)
+            c[int(rng.integers(0, n))] = float(np.mean(c)) + float(rng.choice([-1.0, 1.0])) * 14.0 * float(np.std(c))
         elif k == 'int':
             c = rng.integers(0, 4, n).astype(float)
             if len(set(c)) == 1:
